@@ -18,7 +18,7 @@ TECHNIQUE = 'symbolic execution of the list decoders on a, b and a||b (CrossHair
 EXPLANATION = 'C15: concatenation law per list kind, unknown-TLV insertion, attribute permutations.'
 BOUNDS = 'element pools per kind (prefix lengths 0..32 / boundary set of 0..128, route types, TLV types); <= 6 symbolic octets / numbers per obligation'
 ASSUMPTIONS = ['netaddr model for symbolic IPv4 text (ropes)', 'IPv6 address bits concretised']
-BUDGET = {'quick': 330, 'thorough': 1500}
+BUDGET = {'quick': 330, 'thorough': 2400}
 
 
 def octs(vals):
